@@ -156,6 +156,10 @@ def _monotone(g, stmt, val) -> tuple[bool, str]:
         return False, norm_stmt(val)
     if isinstance(val, ast.Attribute) and val.attr == "max":
         return True, ""
+    if isinstance(val, ast.BinOp) and isinstance(val.op, ast.Add) and isinstance(val.left, ast.Name) and \
+            isinstance(val.right, ast.Constant) and isinstance(val.right.value, int) and val.right.value >= 0:
+        # a match boundary plus a non-negative constant: boundaries of a match started at .pos are >= .pos
+        return _monotone(g, stmt, val.left)
     if isinstance(val, ast.Name):
         # a local bound from a regex match end / span, or a parameter of that meaning
         defs = []
@@ -559,6 +563,65 @@ def rule_e6(chk: Check, ix: Index):
                 f"parse() returns something other than the checked result: {[n.label for n in rets]}")
 
 
+def rule_t4(chk: Check, ix: Index):
+    """T4: no regular expression the scanner matches with has exponential ambiguity (a state with two different paths on the
+    same word back to itself).  On such a pattern a 40-character line costs 2**40 backtracking steps — a hang at the prompt.
+    The patterns are gathered from the call sites, not from a list: every argument of LineState.match()/re.compile() in
+    tokenize.py, `.pattern` arguments being resolved to every `pattern=` value handed to add_prog()."""
+    from .. import constfold, rx
+    from .c10 import add_prog_sites, fold_pattern
+    F = constfold.fold_tokenize()
+    endpats = F.need("endpats")
+    # the test must be able to fire
+    if rx.exponential_ambiguity(r"(a+)+b") is None or rx.exponential_ambiguity(r"(?:[^\n`]|\\.)*`") is None \
+            or rx.exponential_ambiguity(r"(?:[^\n`\\]|\\.)*`") is not None:
+        raise AnalysisError("T4: the exponential-ambiguity test does not separate its built-in examples")
+    pats: dict[str, tuple[str, str]] = {}
+    for q, f in sorted(ix.funcs.items()):
+        if f.rel != repo.TOKENIZE:
+            continue
+        for n in own_nodes(f.node):
+            if not (isinstance(n, ast.Call) and n.args):
+                continue
+            fn = n.func
+            name = fn.attr if isinstance(fn, ast.Attribute) else fn.id if isinstance(fn, ast.Name) else ""
+            if name not in ("match", "compile", "_compile", "fullmatch", "search"):
+                continue
+            a = n.args[0]
+            if isinstance(a, ast.Attribute) and a.attr == "pattern":
+                continue  # resolved below through add_prog
+            if isinstance(a, ast.Name) and a.id in {x.arg for x in f.node.args.args}:
+                continue  # the wrapper's own parameter
+            if isinstance(fn, ast.Attribute) and name == "match" and isinstance(fn.value, ast.Name) and fn.value.id == "pattern":
+                continue  # LineState.match: the compiled parameter
+            try:
+                pats[f"{f.qual}:{norm_stmt(a)}"] = (constfold.fold_expr(a), f"{f.rel}:{n.lineno}")
+            except Exception as e:  # not a constant: undecided, never silent
+                chk.count("T4-regex-no-exponential")
+                chk.undecided("T4-regex-no-exponential", f"{f.qual}:{norm_stmt(a)}", f"{f.rel}:{n.lineno}", f"pattern is not a foldable constant: {e}")
+    for f, n, mode, pat, defs in add_prog_sites(ix):
+        if pat is None:
+            continue
+        for i, p in enumerate(fold_pattern(pat, defs, endpats)):
+            pats[f"{f.qual}:add_prog:{mode}:{i}"] = (p, f"{f.rel}:{n.lineno}")
+    for key, (p, where) in sorted(pats.items()):
+        chk.count("T4-regex-no-exponential")
+        if not isinstance(p, str):
+            p = getattr(p, "pattern", None)
+            if not isinstance(p, str):
+                chk.undecided("T4-regex-no-exponential", key, where, "not a string pattern")
+                continue
+        try:
+            w = rx.exponential_ambiguity(p)
+        except rx.Unsupported as e:
+            chk.undecided("T4-regex-no-exponential", key, where, f"pattern outside the supported fragment: {e}")
+            continue
+        chk.require(w is None, "T4-regex-no-exponential", key, where,
+                    f"the pattern has two different ways to match {w[1]!r} in a loop ({w[0]}): a run of n such pieces followed by a "
+                    f"mismatch costs 2**n backtracking steps" if w else "")
+    chk.units["scanner_patterns"] = sorted(pats)
+
+
 def run(chk: Check):
     chk.explanation = (
         "Per loop and per raise site: the per-line scan loop makes progress on every iteration (fresh position snapshot for the "
@@ -579,6 +642,7 @@ def run(chk: Check):
     rule_t1(chk, ix)
     rule_t2(chk, ix)
     rule_t3(chk, ix, reach)
+    rule_t4(chk, ix)
     rule_e1(chk, ix, reach)
     tr = typed.run()
     rule_e1b(chk, tr)
@@ -594,5 +658,6 @@ def run(chk: Check):
     chk.floor("T1-scan-progress", 3)
     chk.floor("T1-monotone-pos", 6)
     chk.floor("T2-eof-exit", 3)
+    chk.floor("T4-regex-no-exponential", 5)
     chk.floor("E2-assert", 3)
     chk.floor("E6-parse-total", 2)
